@@ -109,15 +109,15 @@ func (k Keeper) IterateConsensusStates(
 	for ; iterator.Valid(); iterator.Next() {
 		key := iterator.Key()
 
-		keySplit := strings.Split(string(key), "/")
-		// consensus key is in the format "clients/<chainName>/consensusStates/<height>"
-		if len(keySplit) != 4 || keySplit[2] != string(host.KeyConsensusStatePrefix) {
+		// consensus key is in the format "clients/<chainName>/consensusStates/<16 big-endian height bytes>";
+		// the height bytes may contain '/', so only the first two separators are split on
+		keySplit := strings.SplitN(string(key), "/", 3)
+		consensusPrefix := host.KeyConsensusStatePrefix + "/"
+		if len(keySplit) != 3 || !strings.HasPrefix(keySplit[2], consensusPrefix) || len(keySplit[2]) != len(consensusPrefix)+16 {
 			continue
 		}
 		chainName := keySplit[1]
-		//revinum := sdk.BigEndianToUint64(key[35:43])
-		//revihei := sdk.BigEndianToUint64(key[44:])
-		heightBytes := keySplit[3]
+		heightBytes := keySplit[2][len(consensusPrefix):]
 		revisionUint64 := binary.BigEndian.Uint64([]byte(heightBytes[:8]))
 		heightUint64 := binary.BigEndian.Uint64([]byte(heightBytes[8:]))
 		height := types.MustParseHeight(fmt.Sprintf("%d-%d", revisionUint64, heightUint64))
@@ -247,8 +247,9 @@ func (k Keeper) IterateClients(
 
 	defer iterator.Close()
 	for ; iterator.Valid(); iterator.Next() {
-		keySplit := strings.Split(string(iterator.Key()), "/")
-		if keySplit[len(keySplit)-1] != host.KeyClientState {
+		// client state key is "clients/<chainName>/clientState"; other keys under the prefix may hold binary data
+		keySplit := strings.SplitN(string(iterator.Key()), "/", 3)
+		if len(keySplit) != 3 || keySplit[2] != host.KeyClientState {
 			continue
 		}
 		clientState := k.MustUnmarshalClientState(iterator.Value())
